@@ -57,29 +57,47 @@ def _run_chunk(args):
 
 
 def replay_dump(dumpfile, handler_path, opts=None, nproc=16, chunk=200, texts=None):
-    if texts is None:
-        texts = tlc.split_dump(dumpfile)
-    chunks = [texts[i:i + chunk] for i in range(0, len(texts), chunk)]
+    """Run the handler on every state of the dump (streamed, with back-pressure so that huge dumps are never held in memory)."""
+    import threading
+    src = iter(texts) if texts is not None else tlc.iter_dump(dumpfile)
+    n_states = [0]
+    sem = threading.Semaphore(4 * max(1, nproc))
+
+    def chunks():
+        buf = []
+        for t in src:
+            buf.append(t)
+            n_states[0] += 1
+            if len(buf) >= chunk:
+                sem.acquire()
+                yield (handler_path, buf, opts or {})
+                buf = []
+        if buf:
+            sem.acquire()
+            yield (handler_path, buf, opts or {})
     problems, stats, samples, artifacts = [], collections.Counter(), [], []
     t0 = time.time()
     if nproc <= 1:
         _init_worker()
-        results = map(_run_chunk, [(handler_path, c, opts or {}) for c in chunks])
+        results = map(_run_chunk, chunks())
+        pool = None
     else:
         ctx = mp.get_context("fork")
         pool = ctx.Pool(nproc, initializer=_init_worker)
-        results = pool.imap_unordered(_run_chunk, [(handler_path, c, opts or {}) for c in chunks])
+        results = pool.imap_unordered(_run_chunk, chunks())
     for p, s, sm, art in results:
+        sem.release()
         artifacts.extend(art)
-        problems.extend(p)
+        if len(problems) < 20000:
+            problems.extend(p)
         for k in list(s):
             if k.endswith("_max"):          # maxima are merged by max, counters by sum
                 stats[k] = max(stats.get(k, 0), s.pop(k))
         stats.update(s)
         if len(samples) < 6:
             samples.extend(sm)
-    if nproc > 1:
+    if pool is not None:
         pool.close()
         pool.join()
-    return {"problems": problems, "stats": dict(stats), "samples": samples[:6], "n_states": len(texts), "artifacts": artifacts,
+    return {"problems": problems, "stats": dict(stats), "samples": samples[:6], "n_states": n_states[0], "artifacts": artifacts,
             "wall_s": round(time.time() - t0, 2)}
